@@ -948,6 +948,11 @@ pub fn oplog(s: impl FnOnce() -> String) {
     }
 }
 /// Scheduling point between two workload operations.
+thread_local! {
+    /// See `World::sched_point`: wall-clock limit of a shrink candidate (never set otherwise).
+    pub static ABANDON_AT: std::cell::Cell<Option<std::time::Instant>> = const { std::cell::Cell::new(None) };
+}
+
 pub fn op_point() {
     with(|w| {
         w.stats.ops += 1;
@@ -1131,6 +1136,17 @@ impl World {
     pub fn sched_point(&mut self, kind: PointKind) {
         self.tick += 1;
         self.stats.ticks += 1;
+        // Shrink candidates only: a shortened tape can make a scenario astronomically slower than
+        // the run it came from (a 4 GiB stream read one byte at a time); such a candidate is
+        // abandoned. Ordinary runs and replays have no deadline.
+        if self.tick & 0xfff == 0 {
+            if let Some(d) = ABANDON_AT.with(|c| c.get()) {
+                if std::time::Instant::now() > d {
+                    ABANDON_AT.with(|c| c.set(None));
+                    std::panic::panic_any(AbortRun("shrink candidate abandoned: too slow"));
+                }
+            }
+        }
         if self.in_device {
             return;
         }
